@@ -1,0 +1,91 @@
+//go:build verif
+
+package badger
+
+import (
+	"sync"
+
+	"github.com/dgraph-io/badger/v4/table"
+)
+
+// Observation points for the /verif correspondence harness: every finished memtable flush
+// and every finished compaction is appended to an event log, with the tables it consumed and
+// produced and the (hasOverlap, discardTs) pair its sub-compactions computed. The harness
+// replays these events, in order, through the Lean LSM model. Observation only: nothing
+// here feeds back into badger.
+
+type VCompactEvent struct {
+	Kind         string // "compact" or "flush"
+	ThisLevel    int
+	NextLevel    int
+	TopIDs       []uint64
+	BotIDs       []uint64
+	NewIDs       []uint64 // in the order compactBuildTables returned them (sorted by Biggest)
+	DropPrefixes [][]byte
+	HasOverlap   bool
+	DiscardTs    uint64
+	SubSeen      bool // a sub-compaction reported (hasOverlap, discardTs)
+}
+
+var verifEv struct {
+	sync.Mutex
+	log []VCompactEvent
+	sub map[uint64]VCompactEvent // keyed by the id of the first input table
+}
+
+func verifCdKey(cd compactDef) uint64 {
+	if len(cd.top) > 0 {
+		return cd.top[0].ID()
+	}
+	if len(cd.bot) > 0 {
+		return cd.bot[0].ID()
+	}
+	return 0
+}
+
+func verifSubcompact(cd compactDef, hasOverlap bool, discardTs uint64) {
+	verifEv.Lock()
+	defer verifEv.Unlock()
+	if verifEv.sub == nil {
+		verifEv.sub = map[uint64]VCompactEvent{}
+	}
+	verifEv.sub[verifCdKey(cd)] = VCompactEvent{HasOverlap: hasOverlap, DiscardTs: discardTs, SubSeen: true}
+}
+
+func verifCompactDone(l int, cd compactDef, newTables []*table.Table) {
+	ev := VCompactEvent{Kind: "compact", ThisLevel: cd.thisLevel.level, NextLevel: cd.nextLevel.level}
+	for _, t := range cd.top {
+		ev.TopIDs = append(ev.TopIDs, t.ID())
+	}
+	for _, t := range cd.bot {
+		ev.BotIDs = append(ev.BotIDs, t.ID())
+	}
+	for _, t := range newTables {
+		ev.NewIDs = append(ev.NewIDs, t.ID())
+	}
+	for _, p := range cd.dropPrefixes {
+		ev.DropPrefixes = append(ev.DropPrefixes, append([]byte{}, p...))
+	}
+	verifEv.Lock()
+	defer verifEv.Unlock()
+	if s, ok := verifEv.sub[verifCdKey(cd)]; ok {
+		ev.HasOverlap, ev.DiscardTs, ev.SubSeen = s.HasOverlap, s.DiscardTs, true
+		delete(verifEv.sub, verifCdKey(cd))
+	}
+	verifEv.log = append(verifEv.log, ev)
+}
+
+func verifFlushDone(tbl *table.Table) {
+	verifEv.Lock()
+	defer verifEv.Unlock()
+	verifEv.log = append(verifEv.log, VCompactEvent{Kind: "flush", NewIDs: []uint64{tbl.ID()}})
+}
+
+// VerifTakeEvents returns and clears the event log.
+func VerifTakeEvents() []VCompactEvent {
+	verifEv.Lock()
+	defer verifEv.Unlock()
+	out := verifEv.log
+	verifEv.log = nil
+	return out
+}
